@@ -332,3 +332,55 @@ finalize_aspect!(fin_s_qratio_int, 1, 0);
 finalize_aspect!(fin_s_qratio_f32, 1, 1);
 finalize_aspect!(fin_s_body, 2, 2);
 finalize_aspect!(fin_s_misc, 3, 2);
+
+// ---- Q-ratio aspect with the code's own quartile values captured at the aggregate call
+static mut AGG_Q: (u32, u32, u32) = (0, 0, 0);
+static mut AGG_CALLS: usize = 0;
+#[allow(unsafe_code)]
+fn aggregate_48_recording(out: &mut [u8; 12], _b: &[u32; 48], q1: u32, q2: u32, q3: u32) {
+    unsafe { AGG_Q = (q1, q2, q3); AGG_CALLS += 1; }
+    *out = kani::any();
+}
+
+macro_rules! qratio_aspect {
+    ($name:ident, $int:literal) => {
+        #[kani::proof]
+        #[kani::unwind(50)]
+        #[kani::stub(<[u32]>::select_nth_unstable, select_nth_recording)]
+        #[kani::stub(crate::generate::bucket_aggregation::aggregate_48, aggregate_48_recording)]
+        #[allow(unsafe_code)]
+        fn $name() {
+            let mut g: InnerGen<1, 12, 48, 15, 32> = Default::default();
+            g.buckets.buckets = kani::any();
+            g.len = kani::any();
+            g.tail_len = kani::any();
+            kani::assume(g.tail_len <= 4 && (g.tail_len == 4 || g.len == 0));
+            let (small, half, quarter, conservative): (bool, bool, bool, bool) = kani::any();
+            let mut opts = GeneratorOptions::new();
+            opts.pure_integer_qratio_computation($int);
+            opts.allow_small_size_files(small);
+            opts.allow_statistically_weak_buckets_half(half);
+            opts.allow_statistically_weak_buckets_quarter(quarter);
+            if conservative { opts.length_processing_mode(crate::length::DataLengthProcessingMode::Conservative); }
+            let (p1, p2, p3): (u32, u32, u32) = kani::any();
+            kani::assume(p1 <= p2 && p2 <= p3);
+            unsafe { REC_CALLS = 0; REC_PIV = [p2, p1, p3]; AGG_CALLS = 0; }
+            let r = g.finalize_with_options(&opts);
+            if let Ok(h) = r {
+                let (q1, q2, q3) = unsafe { assert!(AGG_CALLS == 1); AGG_Q };
+                // (1) what reaches the aggregation are the pivots, or the dummies
+                assert!((q1, q2, q3) == if p3 == 0 { (1, 1, 1) } else { (p1, p2, p3) });
+                // (2) the Q ratios are the reference formula of exactly those values
+                let (e1, e2) = if $int {
+                    ((((q1 as u64 * 100) / q3 as u64) % 16) as u8, (((q2 as u64 * 100) / q3 as u64) % 16) as u8)
+                } else {
+                    ((((q1.wrapping_mul(100) as f32) / q3 as f32) as u32 % 16) as u8, (((q2.wrapping_mul(100) as f32) / q3 as f32) as u32 % 16) as u8)
+                };
+                assert!(h.qratios().q1ratio() == e1 && h.qratios().q2ratio() == e2);
+                kani::cover!(true, "ok path reachable");
+            }
+        }
+    };
+}
+qratio_aspect!(fin_s_qratio_int_v2, true);
+qratio_aspect!(fin_s_qratio_f32_v2, false);
